@@ -131,6 +131,8 @@ def perturb_work(arg):
     if text is None:
         return res
     res["sha"] = core.sha(text)[:12]
+    if len(text) < 1500:
+        res["sample"] = {"program": text, "configurations": CONFIGS, "kind": kind}
     base_dir = "/dev/shm" if os.path.isdir("/dev/shm") else core.WORK
     d = tempfile.mkdtemp(prefix="c19-", dir=base_dir)
     try:
@@ -343,6 +345,8 @@ def run(rep, tier):
         rep.evaluations += 1
         rep.process_runs += res["runs"]
         rep.distinct.add(res["sha"])
+        if res.get("sample"):
+            rep.actual_sample(res["sample"], limit=2)
         for c in res["configs"]:
             rep.tally("configurations", c)
         for sig, what, src, extra in res["viol"]:
